@@ -1,5 +1,5 @@
 """Per-property checks (DESIGN.md section 3)."""
-import json, os, random
+import json, os, random, shutil
 import pipeline as P
 import families as F
 from rt import Run, opt, FLAGSETS_8, FLAGSETS_2
@@ -1484,7 +1484,7 @@ def check_C13(tier, seed, replay=None):
                                 "".join("U%d <- [%s]%s\n" % (i, ("\\p" + u) if len(u) == 1 else ("\\p{" + u + "}"), sfx) for i, u in enumerate(uc))).encode()))
     nm = 1500 if tier == "quick" else 20000
     snippets = [b"{", b"}", b"<-", b"//{", b"%{", b"\"", b"'", b"[", b"]", b"(", b")", b"\\", b"/*", b"*/", b"//", b"\n", b";", b"i", b"\xff",
-                b"\\p{", b"\\x", b"\\u12", b"#{", b"&{", b"!{", b":", b"=", b"\xe2\x86\x90", b"^", b"-", b"*", b"?", b"+"]
+                b"\\p{", b"\\p{L]", b"\\x", b"\\u12", b"#{", b"&{", b"!{", b":", b"=", b"\xe2\x86\x90", b"^", b"-", b"*", b"?", b"+"]
     for _ in range(nm):
         v = bytearray(rng.choice(valid))
         if len(v) == 0:
@@ -1509,6 +1509,7 @@ def check_C13(tier, seed, replay=None):
            b"A <- B\nB <- A\n", b"A <- A 'x' / 'y'\n", b"A <- ('a'?)* \n", b"A <- c:'x' { return c, nil }\n", b"A <- x:'a' { return x }\n",
            b"A <- 'a' { this is not go }\n", b"A <- &{ return 1 } 'a'\n", b"A <- [\\p{Nope}]\n", b"A <- [z-a]\n", b"A <- \"\\xZZ\"\n", b"A <- B //{l} C\nB <- %{l}\nC <- %{l}\n",
            b"A <- func\n", b"func <- 'a'\n", b"A <- type:'a' { return type, nil }\n", b"", b"\n\n", b"A <- 'a'", b"A = 'a' ; B \xe2\x86\x90 'b' ; C \xe2\x9f\xb5 A B",
+           b"A <- [\\p{Latin]]\n", b"A <- [a\\p{Greek]x]\n", b"A <- [\\p{]]\n", b"A <- [\\p{Latin]\n", b"A <- [\\p{Latin]]i 'x'\nB <- [\\pL\\p{Nd]-]\n",
            b"A \"disp\\\"lay\" <- 'a'\n", b"A <- 'a'i \"B\"i `c`i [d]i .\n", b"A <- ( ( ( 'a' ) ) )\n", b"A <- 'a' / \n", b"A <- / 'a'\n", b"A <- ()\n"]
     for o in odd:
         texts.append(("odd", head + o))
@@ -1550,15 +1551,19 @@ def check_C13(tier, seed, replay=None):
     outdir = os.path.join(d, "out")
     os.makedirs(outdir)
 
+    # a run that allocates without end must die as an out-of-memory crash of its own, not take the machine with it
+    # (prlimit(1) of util-linux; a preexec_fn is not safe in a threaded parent)
+    memlimit = ["prlimit", "--as=%d" % (6 << 30)] if shutil.which("prlimit") else []
+
     def one(job):
         k, kind, pth, fl, args = job
         tmo = False
         try:
-            p = subprocess.run([pigeon] + fl + args, stdout=subprocess.PIPE, stderr=subprocess.PIPE, env=P.ENV, timeout=20, stdin=subprocess.DEVNULL)
+            p = subprocess.run(memlimit + [pigeon] + fl + args, stdout=subprocess.PIPE, stderr=subprocess.PIPE, env=P.ENV, timeout=20, stdin=subprocess.DEVNULL)
             rc, out, err = p.returncode, p.stdout, p.stderr.decode(errors="replace")
         except subprocess.TimeoutExpired:
             try:        # confirm the hang with a longer limit
-                p = subprocess.run([pigeon] + fl + args, stdout=subprocess.PIPE, stderr=subprocess.PIPE, env=P.ENV, timeout=60, stdin=subprocess.DEVNULL)
+                p = subprocess.run(memlimit + [pigeon] + fl + args, stdout=subprocess.PIPE, stderr=subprocess.PIPE, env=P.ENV, timeout=120, stdin=subprocess.DEVNULL)
                 rc, out, err = p.returncode, p.stdout, p.stderr.decode(errors="replace")
             except subprocess.TimeoutExpired:
                 rc, out, err, tmo = -1, b"", "", True
